@@ -185,7 +185,7 @@ def gen(seed, tier):
         if rng.random() < 0.3 and via.startswith('node.') and via != 'node.request':
             step['timeout'] = rng.choice([1, 30, 120])
         steps.append(step)
-    return {'prop': ID, 'steps': steps, 'debug_logging': rng.random() < 0.15}
+    return {'prop': ID, 'steps': steps, 'debug_logging': rng.random() < 0.15, 'custom_headers': rng.random() < 0.2}
 
 
 def is_transient(resp):
@@ -267,7 +267,8 @@ def _execute(scn, want_log=False):
 
     with core.Seams(sim, tr):
         # one client object for the whole scenario: retry state must not leak from one request to the next
-        shared_node = RpcNode(uri)
+        # a client may be created with custom headers (an API key for a gateway): every resend must carry them too
+        shared_node = RpcNode(uri, headers={'Authorization': 'Bearer sim-token'}) if scn.get('custom_headers') else RpcNode(uri)
         shared_multi = RpcMultiNode([uri])
         for si, step in enumerate(scn['steps']):
             script = step['script']
